@@ -18,7 +18,7 @@ def run(ctx):
     build.ensure_vsb()
     build.ensure_vsbh()
     nhist, nruns = (50, 10) if thorough else (6, 7)
-    ctx.rule = ("%d histories of %d runs: 1..3 items, a third of them with a filter; files of 0, 1, 4095, 4096, 4097, 9000 bytes with "
+    ctx.rule = ("%d histories of %d runs: 1..3 items, a third of them with a filter; files of 0, 1, 4095, 4096, 4097, 9000 bytes (and sizes around 512 / 8192) with "
                 "duplicates, symlinks (dangling, absolute, 150-byte targets), names with spaces / unicode / 200 bytes, modes incl. setuid / "
                 "sticky / 000, foreign owners, mtimes incl. pre-1970 and year 2400, hard links; edits modify / touch / rename / delete / add / "
                 "type change / chmod / swap, each content change with a new mtime; limits 1..3 x 1..3, day jumps. After every second run "
@@ -78,6 +78,10 @@ def run(ctx):
                 n = rng.choice([1, 2, 511, 1536, 3000, 4095, 4096, 4097, rng.randrange(1, 4097)])
                 H.w.write_file(os.path.join(top, "small", "f%04d" % i), rng.randbytes(n))
             H.w.write_file(os.path.join(top, "large.bin"), rng.randbytes(300000))
+            # symlink targets around and beyond the 100 bytes of a tar header's link field (GNU long-link records)
+            for i, tgt in enumerate(["a" * 99, "b" * 100, "c" * 101, "d" * 150, "/".join(["seg%02d" % k for k in range(25)]), "../" * 40 + "x", "/abs/" + "e" * 120 + "/f",
+                                     "short"]):
+                os.symlink(tgt, os.path.join(top, "link%d" % i))
             ctx.count("forced.many-small-files")
             H.run(nedits=0)
             H.w.edit()
